@@ -322,6 +322,16 @@ theorem files_route_independent (E : Env) (ops1 ops2 : List (String × String))
       simp only at i1 i2
       rw [i1.1, i1.2, i2.1, i2.2, hc]
 
+/-- `set_all_files` (a second `set_rules_dir`: re-initialisation, or a repair by re-pointing) selects the files of the language in force:
+it establishes the invariant whatever the selection was, and under the invariant it changes nothing -/
+def reinit (s : PState) (_ : Files) : Files := ⟨curLanguage s, curLanguage s⟩
+
+theorem reinit_inv (s : PState) (f : Files) : FilesInv s (reinit s f) := ⟨rfl, rfl⟩
+
+theorem reinit_noop (s : PState) (f : Files) (hi : FilesInv s f) : reinit s f = f := by
+  cases f with
+  | mk a b => unfold FilesInv at hi; simp only at hi; simp [reinit, hi.1, hi.2]
+
 /-- the order of the three preferences does not matter: style first or last, the style file is looked up in the host's language -/
 example : (runOpsF envAll (initState, initFiles) [("Language", "Auto"), ("LanguageAuto", "es"), ("SpeechStyle", "SimpleSpeak")]).2
         = ⟨"es", "es"⟩ ∧
